@@ -1,0 +1,21 @@
+//go:build verif
+
+// Round 6, area K: the remaining small functions of internal/lg. Comment-only file.
+// LogFatal (log line, then os.Exit(1)) never returns and therefore cannot carry a contract (vacuity guard: a contract needs a reachable
+// return - notes area_r5I gap I1); it is inlined at every call site down to the os.Exit extern.
+
+package lg
+
+// NilLogger.Output: drops the line and reports success.
+//@ func (l NilLogger) Output(maxdepth int, s string) error
+//@   props C15 C10
+//@   ensures[ok] result == nil
+//@   modifies
+//@   nochan
+// LogLevel.Get (flag.Getter): the level itself, boxed.
+//@ func (l *LogLevel) Get() interface{}
+//@   props C15 C10
+//@   requires l != nil
+//@   ensures[the-level] dyntype(result) == typetag("LogLevel") && unbox(result, "LogLevel") == *l
+//@   modifies
+//@   nochan
